@@ -14,8 +14,8 @@ from .util import subseed
 BUDGET = {"quick": 45, "thorough": 600}
 CHUNK = {"quick": 60, "thorough": 120}
 
-QUICK_RANDOM = 4000
-QUICK_SWEEPS = 40
+QUICK_RANDOM = 10000
+QUICK_SWEEPS = 100
 
 # which statistics make a run non-trivial for a property (any of the keys > 0)
 NONTRIVIAL = {
@@ -60,7 +60,7 @@ UNSTEER = {
     "F-EARLY": ("C01", "C06", "C07", "C09", "C10", "C11", "C13", "C14"),
     "F-LOCK": ("C01", "C02", "C03", "C05", "C06", "C07", "C09", "C10", "C11", "C14"),
 }
-QUICK_HRAND = 1000
+QUICK_HRAND = 2000
 
 SWEEP_STEPS = {
     "C01": ["spawn2", "cancel_all"],
